@@ -29,6 +29,7 @@ func init() {
 		Level: "model_checking",
 		Rule: "explicit enumeration of operation histories on the real decoder: every sequence of length 1..2 over the whole frame alphabet (valid minimal+rich frames of all 15 types, short forms, remaining-length-0 frames of all 16 first-byte types, content-malformed frames) and every sequence of length 3 over a sub-alphabet (quick: 18 frames incl. a 5 000-byte frame; thorough: the whole alphabet), each followed by every tail in {none, 00, ff ff ff ff ff, first byte of a header, a whole further frame}, and each handed to ReadPacket through eleven io.Reader implementations (a counting reader; a reader of own type with a Close method - after Close every Read fails, so a decoder that closes the caller's reader loses the rest of the stream; bufio.Reader with a 16-byte and a 4096-byte buffer, and one that already holds data when handed over; a reader of its own type offering ReadByte/Peek/Discard/Buffered/WriteTo; io.LimitedReader; bytes.Buffer; bytes.Reader; strings.Reader — a decoder may special-case what a reader can do; plus six buffering readers over a source that hands over 1-7 bytes per Read, so that the buffer ends inside frames). " +
 			"After each call: bytes drawn from the counting reader == 1+|remaining length field|+remaining length of that frame; result i equals the result of reading frame i alone (history and tail independence); every packet returned by an earlier call is observed again after the last call and must be unchanged (a frame's result depends on its own bytes only); with no tail the call after the last frame returns an error satisfying errors.Is(err, io.EOF). " +
+			"Caller-owned packets: every sequence of length >= 2 is also read with the caller changing every returned packet through the setters of its type before the next call; later results must not depend on it (a decoder that hands out shared pre-built packets). " +
 			"Map orders: every frame of the alphabet, and every rich frame of V with one more property (each defined identifier, zero and non-zero value) inserted at every property boundary, is decoded under six orderings of every map range the decoder meets (instrumenter's map-range seam; all n! orderings for n <= 3): the result must be the result under the sorted walk. " +
 			"states = distinct (sequence prefix) stream positions visited, transitions = ReadPacket calls; distinct_nontrivial = distinct (sequence, tail) of length >= 2.",
 		Assumptions: []string{
